@@ -716,7 +716,7 @@ def remove_urls(d, urls):
 
 
 OPTION_SETS = [{}, {}, {'optimize_images': True}, {'cache_mode': 'dict'}, {'pdf_variant': 'pdf/a-3u'},
-               {'pdf_variant': 'pdf/ua-1'}, {'uncompressed_pdf': True}, {'optimize_images': True, 'dpi': 96},
+               {'pdf_variant': 'pdf/ua-1'}, {'uncompressed_pdf': True}, {'optimize_images': True, 'dpi': 20000},
                {'cache_mode': 'dict', 'pdf_variant': 'pdf/a-3u', 'jpeg_quality': 60}]
 
 
@@ -946,12 +946,37 @@ def stream_probes(run, rng, n=None):
 
 
 def check(run):
+    import time
     rng = random.Random(run.seed * 7919 + 20)
     thorough = run.tier == 'thorough'
+    common.prove(run, 'C20', ['model/C20Url.vo', 'model/C20Fetch.vo', 'model/C20Doc.vo'])
+    run.trusted += ['Coq 8.16.1 kernel (coqc); vm_compute for the cases.v evaluation',
+                    'harness: recording in-memory url_fetcher, document generator and its by-construction absolute URLs, '
+                    'observation of effects (box tree, PDF image XObject sizes, embedded payloads) - Python',
+                    'harness/pdfread.py (independent PDF reader) for the image / embedded-file facts',
+                    'sys.addaudithook: sees what CPython raises audit events for (open, os.*, socket.*, urllib.Request, '
+                    'subprocess); opens performed inside C libraries (fontconfig, FreeType, Pango) are invisible to it']
+    run.assumptions += ['the models (C20Url, C20Fetch, C20Doc) are hand-written; they are tied to /repo by the correspondence streams '
+                        'url-join, consume-direct and docs on every run, not by translation',
+                        'world entries reference later entries only (acyclic imports / nested SVG): cycles are the listed finding '
+                        'css-import-cycle-recursionerror',
+                        'decoders are abstracted: which bytes Pillow / tinycss2 / fontconfig accept is observed, not modelled '
+                        '(modes empty / header-truncated / wrong type / tag-soup HTML are rejected by all three on every run)',
+                        'font-face rules are not repeated within a document (the font file digest short-cut of add_font_face is not modelled)',
+                        'the clause "nothing is opened behind the fetcher" is monitored with audit hooks (render and write_pdf), not proved']
+    t0 = time.time()
     stream_urls(run, rng, 4000 if thorough else 1200)
+    t1 = time.time()
     stream_consume(run, rng, 1500 if thorough else 700)
-    stream_docs(run, rng, 60 if thorough else 36, thorough)
+    t2 = time.time()
+    stream_docs(run, rng, 60 if thorough else 24, thorough)
+    t3 = time.time()
     stream_probes(run, rng)
+    t4 = time.time()
+    run.stream_info('url-join', wall_s=round(t1 - t0, 1))
+    run.stream_info('consume-direct', wall_s=round(t2 - t1, 1))
+    run.stream_info('docs', wall_s=round(t3 - t2, 1))
+    run.stream_info('probes', wall_s=round(t4 - t3, 1))
 
 
 def replay(data):
